@@ -72,6 +72,7 @@ fn main() {
     let code = match args[0].as_str() {
         "golden" => golden::run(&opts),
         "legA" => lega::run(&opts),
+        "legA-exec" => lega::exec_main(&opts),
         "legC" => legc::run(&opts),
         "libdump" => libdump::run(&opts),
         "c15" => c15::run(&opts),
